@@ -95,7 +95,7 @@ class WorldGen:
         if sum(k["cats"].values()) == 0:
             k["cats"]["prop"] = 1
         k["faults"] = r.random() < 0.45
-        k["fault_kinds"] = [s for s in ("lib", "flt") if r.random() < 0.7] or ["lib"]
+        k["fault_kinds"] = [s for s in ("lib", "flt", "alloc") if r.random() < 0.6] or ["lib"]
         k["hazard_values"] = r.random() < 0.3
         k["hazard_findings"] = r.random() < 0.12  # trigger ops of listed findings only in a dedicated fraction
         k["awk_mode"] = r.choice(("unregistered", "unregistered", "registered_before"))
@@ -872,7 +872,7 @@ class WorldGen:
         progs = self.build_progs(k)
         faults = self.build_faults(k, progs)
         cfg = {"awk_mode": k["awk_mode"], "errstate": k["errstate"], "warnfilter": k["warnfilter"],
-               "printopts": k["printopts"], "simlib": bool(faults) and any(f["seam"] == "lib" for f in faults)}
+               "printopts": k["printopts"], "simlib": bool(faults) and any(f["seam"] in ("lib", "alloc") for f in faults)}
         w = {"kind": "world", "seed": self.seed, "config": cfg, "pool": self.pool, "progs": progs, "faults": faults,
              "sched": k["sched"], "knobs": {kk: k[kk] for kk in ("nthreads", "nops", "backends", "cats", "faults", "hazard_values", "hazard_findings", "register_midrun")}}
         return w
